@@ -196,7 +196,10 @@ def setup():
     da = tp.hashed_dir(d + "/dirA", [cas["rootA"]])
     db = tp.hashed_dir(d + "/dirB", [cas["rootB"]])
     client = tp.mint(cn="vmc C15 client", key_name="leaf", issuer=cas["rootB"], issuer_key="rootB", eku=())
-    cc = tp.write(d + "/client.pem", tp.key_pem("leaf") + tp.cert_pem(client))
+    # client_certs is a PEM with key + certificate, optionally followed by the chain that issued it.  Those extra CA
+    # certificates serve to *present* the client's chain; they are not a configured trusted CA for the server's chain.
+    cc = {"leaf": tp.write(d + "/client.pem", tp.key_pem("leaf") + tp.cert_pem(client)),
+          "bundle": tp.write(d + "/client-bundle.pem", tp.key_pem("leaf") + tp.cert_pem(client) + tp.cert_pem(cas["rootB"]))}
     opts = {
         "file:A": {"ssl_verify_upstream_trusted_ca": fa},
         "dir:A": {"ssl_verify_upstream_trusted_confdir": da},
@@ -231,7 +234,7 @@ def run_case(c, t: Tally, verbose=False):
     accept, why = ref(kind, identity, trust, insecure)
     opts = dict(p["opts"][trust], ssl_insecure=insecure)
     if ccert:
-        opts["client_certs"] = p["client_cert"]
+        opts["client_certs"] = p["client_cert"]["leaf" if ccert is True else ccert]
     tp.activate(p["env"], **opts)
     if src == "address":
         kw = dict(sni=None, address=(identity, 443))
@@ -311,7 +314,7 @@ def cases(tier):
     groups = []
     for trust in TRUSTS:
         for insecure in (False, True):
-            for ccert in (False, True):
+            for ccert in (False, "leaf", "bundle"):
                 if ccert and not (trust in ("file:A", "default") or thorough):
                     continue
                 for kind in kinds:
@@ -339,7 +342,8 @@ def run(ctx):
         "identity_source": ["server address", "client SNI (DNS identities)", "address of an upstream HTTPS proxy (ServerTLSLayer over a connection that is not context.server)"]
         + (["server.sni preset by an addon"] if thorough else []),
         "trust_configuration": TRUSTS, "ssl_insecure": [False, True], "tls_versions": ["1.3", "1.2"], "connection_opened_by": ["inner layer (OpenConnection)", "already open (eager)"],
-        "client_certs": ctx.pick("unset; set for trust file:A and default (TLS 1.3, inner layer opens)", "unset / set, full product"),
+        "client_certs": ctx.pick("unset; key+certificate PEM / PEM bundle that also carries the client certificate's issuing CA (root B), for trust file:A and default (TLS 1.3, inner layer opens)",
+                                 "unset / key+certificate PEM / PEM bundle with the issuing CA (root B); full product"),
         "cases": n,
     }
     # reference self-test: the table must contain both verdicts for every kind of refusal reason
